@@ -354,26 +354,59 @@ func checkC11(c *core.Ctx) {
 				}
 			}
 		}
-		for h := range heads {
-			released := false
-			core.Instrs(cf, func(ins ssa.Instruction) {
+		// the close function and the helpers it hands the closed object to (extracted release loops)
+		scan := []*ssa.Function{cf}
+		objPT := cf.Params[objIdx].Type()
+		for i := 0; i < len(scan) && i < 6; i++ {
+			core.Instrs(scan[i], func(ins ssa.Instruction) {
 				cc := core.CallCommonOf(ins)
-				if cc == nil {
+				if cc == nil || cc.StaticCallee() == nil {
 					return
 				}
-				f := cc.StaticCallee()
-				if f == nil || (f.Name() != "replace" && f.Name() != "release") {
+				g := cc.StaticCallee()
+				if core.FnPkg(g) == nil || core.FnPkg(g) != core.FnPkg(cf) || len(g.Blocks) == 0 {
 					return
 				}
+				takes := false
 				for _, a := range cc.Args {
-					if isPagePtr(a.Type()) && startsAtField(a, h, 0, map[ssa.Value]bool{}) {
-						// must be a loop
-						if core.ForwardSearch(cf, ins, func(i ssa.Instruction) bool { return i == ins }, nil) != nil {
-							released = true
-						}
+					if types.Identical(a.Type(), objPT) {
+						takes = true
 					}
 				}
+				if !takes {
+					return
+				}
+				for _, have := range scan {
+					if have == g {
+						return
+					}
+				}
+				scan = append(scan, g)
 			})
+		}
+		for h := range heads {
+			released := false
+			for _, sf := range scan {
+				sf := sf
+				core.Instrs(sf, func(ins ssa.Instruction) {
+					cc := core.CallCommonOf(ins)
+					if cc == nil {
+						return
+					}
+					f := cc.StaticCallee()
+					if f == nil || (f.Name() != "replace" && f.Name() != "release") {
+						return
+					}
+					for _, a := range cc.Args {
+						if isPagePtr(a.Type()) && startsAtField(a, h, 0, map[ssa.Value]bool{}) {
+							// must be a loop
+							if core.ForwardSearch(sf, ins, func(i ssa.Instruction) bool { return i == ins }, nil) != nil {
+								released = true
+							}
+						}
+					}
+				})
+			}
 			r3.Check(released, ckey+"releases:"+h, p.Pos(cf.Pos()), "the list headed by "+h+" is walked to the page cache", "closing does not return the pages of the list headed by ."+h+" to the page cache: they stay counted as used forever")
 		}
 		if len(heads) == 0 {
